@@ -1,4 +1,5 @@
 import HavocVerif.Lemmas.Forest
+import HavocVerif.Gen.SrcLines
 /-
   C09 — The pivot graph is always a consistent forest, mirrored in the database.
 -/
@@ -135,5 +136,47 @@ example : (([FOp.register 1, FOp.connect 1 2, FOp.connect 2 3, FOp.connect 3 1] 
 example : let f := (([FOp.register 1, FOp.connect 1 2, FOp.connect 1 3, FOp.connect 3 4] : List FOp).foldl Forest.step {})
     ((f.died 1).agents.map fun a => ((f.died 1).parent a, (f.died 1).links a))
       = ((f.diedSpec 1).agents.map fun a => ((f.diedSpec 1).parent a, (f.diedSpec 1).links a)) := by decide
+
+/-- regenerated from cmd/server/agent.go on every run: the four functions `Forest.died` / `Forest.linkRemove` / `addRow`
+    transcribe, statement for statement.  `Died` detaches unconditionally (no test of `Active` in front of
+    `UnlinkFromAll`); `UnlinkFromAll` removes the agent's own links first (rows and the children's parent pointers,
+    list emptied afterwards) and then the agent from every other agent's list, with the row; `LinkRemove` clears the
+    parent pointer only when it names this parent, deletes the first list entry with that id when asked to, and always
+    removes the row and records the child -/
+theorem forest_sources_transcribed :
+    Gen.SrcLines.died =
+      [
+       "Died(Agent *agent.Agent)",
+       "Agent.Active = false",
+       "t.UnlinkFromAll(Agent)",
+       "t.EventAgentMark(Agent.NameID, \"Dead\")",
+       "t.AgentUpdate(Agent)"] ∧
+    Gen.SrcLines.unlinkFromAll =
+      [
+       "UnlinkFromAll(Agent *agent.Agent)",
+       "for _, LinkAgent := range Agent.Pivots.Links { t.LinkRemove(Agent, LinkAgent, false) }",
+       "Agent.Pivots.Links = nil",
+       "for _, ParentAgent := range t.Agents.Agents { if ParentAgent.NameID == Agent.NameID { continue } for i := range ParentAgent.Pivots.Links { if ParentAgent.Pivots.Links[i].NameID == Agent.NameID { t.LinkRemove(ParentAgent, Agent, false) ParentAgent.Pivots.Links = append(ParentAgent.Pivots.Links[:i], ParentAgent.Pivots.Links[i+1:]...) break } } }"] ∧
+    Gen.SrcLines.linkRemove =
+      [
+       "LinkRemove(ParentAgent *agent.Agent, LinkAgent *agent.Agent, UpdateLinks bool)",
+       "var ParentAgentID, _ = strconv.ParseInt(ParentAgent.NameID, 16, 64)",
+       "var LinkAgentID, _ = strconv.ParseInt(LinkAgent.NameID, 16, 64)",
+       "LinkAgent.Active = false",
+       "LinkAgent.Reason = \"Disconnected\"",
+       "if LinkAgent.Pivots.Parent == ParentAgent { LinkAgent.Pivots.Parent = nil }",
+       "if UpdateLinks { for i := range ParentAgent.Pivots.Links { if ParentAgent.Pivots.Links[i].NameID == LinkAgent.NameID { ParentAgent.Pivots.Links = append(ParentAgent.Pivots.Links[:i], ParentAgent.Pivots.Links[i+1:]...) break } } }",
+       "err := t.DB.LinkRemove(int(ParentAgentID), int(LinkAgentID))",
+       "if err != nil { logger.Error(\"Could not remove link to database: \" + err.Error()) }",
+       "t.AgentUpdate(LinkAgent)"] ∧
+    Gen.SrcLines.linkAdd =
+      [
+       "LinkAdd(ParentAgent *agent.Agent, LinkAgent *agent.Agent) error",
+       "var ParentAgentID, _ = strconv.ParseInt(ParentAgent.NameID, 16, 64)",
+       "var LinkAgentID, _ = strconv.ParseInt(LinkAgent.NameID, 16, 64)",
+       "err := t.DB.LinkAdd(int(ParentAgentID), int(LinkAgentID))",
+       "if err != nil { logger.Error(\"Could not add link to database: \" + err.Error()) }",
+       "return nil"] :=
+  ⟨rfl, rfl, rfl, rfl⟩
 
 end Havoc.C09
